@@ -493,7 +493,7 @@ struct ModelRun
                 first();
                 bool h = pfind(k, v);
                 if (h)
-                    x.fail(step, "C01", "absent_key_found",
+                    x.fail(step, M.dead.count(k) ? "C04,C17" : "C01", M.dead.count(k) ? "expired_entry_served" : "absent_key_found",
                            "key " + std::to_string(k) + " must be absent but returned " + std::to_string(v) + " (a value written for key " +
                                std::to_string(key_of_value(v)) + ")");
                 x.label("checked_absent");
@@ -585,7 +585,7 @@ struct ModelRun
         else
         {
             if (hit)
-                x.fail(step, "C01", "absent_key_found",
+                x.fail(step, M.dead.count(k) ? "C04,C17" : "C01", M.dead.count(k) ? "expired_entry_served" : "absent_key_found",
                        std::string(what) + " key " + std::to_string(k) + " must be absent but returned " + std::to_string(v) + " (a value written for key " +
                            std::to_string(key_of_value(v)) + ")");
             x.label("lookup_misses");
@@ -1340,7 +1340,7 @@ struct ModelRun
                         x.fail(step, "C17", "clean_leaves_only_live", "size() after clean = " + std::to_string(s1) + ", live " + std::to_string(nl));
                     M.Z.clear();
                     invariants(true, ob1);
-                    scan(2, "C17,C03");
+                    scan(2, "C17,C03,C05");
                     break;
                 }
                 case cs::O_AGE:
@@ -1380,6 +1380,7 @@ struct ModelRun
                     removals += static_cast<int>(M.live.size());
                     M.live.clear();
                     M.Z.clear();
+                    M.dead.clear();
                     if (box->size() != 0)
                         x.fail(step, "C20,C02", "clear_size_zero", "size() after clear() = " + std::to_string(box->size()));
                     if (twin_mode == "twin-clear" && step == clear_at)
